@@ -347,7 +347,8 @@ class Lark(Serialize, Generic[_Return_T]):
                 # Each component is written with repr(), so that different (grammar, options) pairs can't produce the same string
                 options_str = ''.join(repr((k, str(v))) for k, v in options.items() if k not in unhashable)
                 from . import __version__
-                s = repr((grammar, options_str, __version__, sys.version_info[:2]))
+                # source_path is where relative imports are resolved from, so it is part of what decides the result
+                s = repr((grammar, self.source_path, options_str, __version__, sys.version_info[:2]))
                 cache_sha256 = sha256_digest(s)
 
                 if isinstance(self.options.cache, str):
